@@ -26,11 +26,26 @@ inline std::vector<double> gen_breaks(uint64_t seed, int S, int mode)
     Rng r(seed, 0xb4);
     std::vector<double> b(S + 1);
     // start: anywhere, exactly zero, or negative such that t = 0 falls somewhere inside the range
-    b[0] = (mode & 4) ? (r.chance(0.5) ? 0.0 : -r.real(0.0, 0.75 * S)) : r.real(-1000.0, 1000.0);
+    const int style = ((mode % 5) + 5) % 5;
+    const bool near_zero = ((mode / 5) & 1) != 0;
+    b[0] = near_zero ? (r.chance(0.5) ? 0.0 : -r.real(0.0, 0.75 * S)) : r.real(-1000.0, 1000.0);
+    if (style == 4)
+    {
+        // a regular grid: all pieces equally wide (exactly, or up to rounding of start + i*step)
+        double step = r.chance(0.5) ? 0.25 * (double)r.range(1, 8) : r.real(0.05, 2.0);
+        bool by_product = r.chance(0.5);
+        for (int i = 0; i < S; ++i)
+        {
+            double nb = by_product ? b[0] + (double)(i + 1) * step : b[i] + step;
+            if (!(nb > b[i])) nb = std::nextafter(b[i], INFINITY);
+            b[i + 1] = nb;
+        }
+        return b;
+    }
     for (int i = 0; i < S; ++i)
     {
         double w;
-        switch (mode & 3)
+        switch (style)
         {
         case 0: w = r.real(0.1, 2.0); break;
         case 1: w = r.logreal(1e-3, 10.0); break;
@@ -731,7 +746,7 @@ inline Plan gen_plan(uint64_t seed, uint64_t index, Tier tier, int profile, int 
         if (type == 0 && r.chance(0.5)) return (int)r.range(7, 10); // straddle the static table limit of 8
         return (int)r.range(1, max_nc);
     };
-    p.ci = {type, pick_nc(), pick_S(), (int64_t)r.below(1u << 30), (int64_t)r.below(8)};
+    p.ci = {type, pick_nc(), pick_S(), (int64_t)r.below(1u << 30), (int64_t)r.below(10)};
     int nops = (int)r.range(4, tier == Tier::Thorough ? 60 : 40);
     // swarm: enable a random subset of fault kinds for this run
     bool f_hint = r.chance(0.7), f_update = r.chance(profile == 1 ? 0.95 : 0.4), f_copy = r.chance(profile == 1 ? 0.9 : 0.2),
@@ -790,10 +805,10 @@ inline Plan gen_plan(uint64_t seed, uint64_t index, Tier tier, int profile, int 
         case OP_UPDATE:
             // mostly the handle that is being evaluated; same or different sizes
             o.i = {r.chance(0.7) ? 0 : (int64_t)r.below(kHandles), r.chance(0.3) ? p.ci[2] : (int64_t)pick_S(), r.chance(0.3) ? p.ci[1] : (int64_t)pick_nc(),
-                   (int64_t)r.below(1u << 30), (int64_t)r.below(8), r.chance(0.15) ? 1 : 0};
+                   (int64_t)r.below(1u << 30), (int64_t)r.below(10), r.chance(0.15) ? 1 : 0};
             break;
         case OP_COPY: case OP_ASSIGN: o.i = {(int64_t)r.below(kHandles), (int64_t)r.below(kHandles), (int64_t)r.below(8)}; break;
-        case OP_RESPLIT: o.i = {r.chance(0.7) ? 0 : (int64_t)r.below(kHandles), (int64_t)r.below(64), (int64_t)r.below(1u << 30), (int64_t)r.below(8), (int64_t)r.below(12)}; break;
+        case OP_RESPLIT: o.i = {r.chance(0.7) ? 0 : (int64_t)r.below(kHandles), (int64_t)r.below(64), (int64_t)r.below(1u << 30), (int64_t)r.below(10), (int64_t)r.below(12)}; break;
         case OP_DESTROY: case OP_SELF_ASSIGN: o.i = {(int64_t)r.below(kHandles)}; break;
         case OP_BAD_INIT:
             o.i = {r.chance(0.7) ? 0 : (int64_t)r.below(kHandles), (int64_t)r.below(6), (int64_t)r.below(5), (int64_t)r.below(12), (int64_t)r.below(1u << 30), (int64_t)r.below(2)};
@@ -809,7 +824,7 @@ inline Plan gen_plan(uint64_t seed, uint64_t index, Tier tier, int profile, int 
             f.kind = (last == OP_HINT_CORRUPT) ? OP_EVAL_HINT : (last == OP_BAD_INIT ? OP_UPDATE : OP_EVAL);
             if (f.kind == OP_EVAL) { f.i = {(last == OP_UPDATE || last == OP_RESPLIT) ? p.ops.back().i[0] : p.ops.back().i[1], (int64_t)r.below(8), (int64_t)r.below(64), (int64_t)r.below(16)}; f.d = {r.unit()}; }
             else if (f.kind == OP_EVAL_HINT) { f.i = {(int64_t)r.below(kHandles), p.ops.back().i[0], (int64_t)r.below(8), (int64_t)r.below(64), (int64_t)r.below(32), 0}; f.d = {r.unit()}; }
-            else { f.i = {p.ops.back().i[0], (int64_t)pick_S(), (int64_t)pick_nc(), (int64_t)r.below(1u << 30), (int64_t)r.below(8), 0}; }
+            else { f.i = {p.ops.back().i[0], (int64_t)pick_S(), (int64_t)pick_nc(), (int64_t)r.below(1u << 30), (int64_t)r.below(10), 0}; }
             p.ops.push_back(std::move(f));
         }
     }
